@@ -196,7 +196,21 @@ def run(ctx):
 
     def check_fn(f, map_pred, label, must=1):
         nonlocal n_deref
-        ds = derefs(f.node, map_pred)
+        from sa.inline import expand as _exp
+        from sa.itersrc import source_of as _so
+
+        fx_ = _exp(prog, f, local_only=True)   # a `_load_part(name, ...)` style helper holding the read is inlined
+
+        def iter_facts(gen):
+            """membership facts a filtering generator helper establishes for the elements it yields"""
+            out_ = []
+            if isinstance(gen.target, ast.Name):
+                for var, a_ in _so(fx_, gen.iter, prog, f).get("gen_facts", []):
+                    if a_[0] == "in" and a_[3] is True and a_[1] == var:
+                        out_.append((gen.target.id, a_[2]))
+            return out_
+
+        ds = derefs(fx_, map_pred, iter_facts)
         if len(ds) < must:
             ctx.error("%s.%s" % (f.cls.name if f.cls else "", f.name), "expected a keyed read of %s" % label)
             return
@@ -265,10 +279,10 @@ def run(ctx):
     from checks.c01 import part_construction
     from sa.itersrc import source_of
 
-    pc = part_construction(pf)
+    pc = part_construction(pf, prog)
     src_ok = False
     if pc is not None:
-        src = source_of(pf.node, pc[2])
+        src = source_of(pf.node, pc[2], prog, pf)
         src_ok = norm(ast.parse(src["terminal"], mode="eval").body, al) == "self._xml_rels" if src["terminal"] else False
     ld = ldr.methods.get("_load")
     use_ok = False
@@ -318,8 +332,10 @@ def run(ctx):
             for x in ast.walk(st) if not isinstance(st, (ast.For, ast.While, ast.If)) else []:
                 if isinstance(x, ast.Call) and isinstance(x.func, ast.Attribute) and x.func.attr == "add" and x.args and dotted(x.args[0]) == (params[0] if params else None):
                     marks_self.add(dotted(x.func.value))
-                if isinstance(x, ast.Assign) and isinstance(x.targets[0], ast.Subscript) and dotted(x.targets[0].slice) == (params[0] if params else None):
-                    marks_self.add(dotted(x.targets[0].value))
+                if isinstance(x, ast.Assign):
+                    for t_ in x.targets:   # `rels = xml_rels[source] = ...` marks as well
+                        if isinstance(t_, ast.Subscript) and dotted(t_.slice) == (params[0] if params else None):
+                            marks_self.add(dotted(t_.value))
         for lp in loops:
             for pth in P_.enum_paths(lp.body):
                 calls = [c for c in rec if pth.index_of(c) is not None]
